@@ -112,6 +112,8 @@ def _str_format(recv, *args, **kw):
             obj, _ = _string.Formatter().get_field(field, args, kw)
             v = obj
         if isinstance(v, _PROXY):
+            if conv == 's' and isinstance(v, SStr):
+                conv = None
             if spec or conv:
                 raise Unsupported('format spec/conversion on symbolic value')
             if isinstance(v, SStr):
@@ -124,7 +126,10 @@ def _str_format(recv, *args, **kw):
             if conv == 'r':
                 v = repr(v)
             elif conv == 's':
-                v = str(v)
+                v = _sx_str(v)
+                if isinstance(v, SStr):
+                    out.append(v)
+                    continue
             elif conv == 'a':
                 v = ascii(v)
             out.append(format(v, spec))
@@ -861,6 +866,18 @@ def _sx_str(*a, **k):
         if isinstance(x, SymInt):
             return str_of_int(x)
         raise Unsupported('str() of %s' % type(x).__name__)
+    if len(a) == 1 and not k:
+        x = a[0]
+        if isinstance(x, BaseException) and len(x.args) == 1 and \
+                isinstance(x.args[0], SStr) and \
+                type(x).__str__ in (BaseException.__str__,
+                                    Exception.__str__):
+            return x.args[0]
+        f = getattr(type(x), '__str__', None)
+        if isinstance(f, types.FunctionType):
+            r = f(x)
+            if isinstance(r, (str, SStr)):
+                return r
     return str(*a, **k)
 
 
